@@ -86,7 +86,13 @@ func NewCommentReader(r io.Reader, startMatches, endMatches [][]byte, isComments
 
 		var extra int
 		left := data[pos+len(startMatches[index]):]
-		if extra = bytes.Index(left, endMatches[index]); extra == -1 {
+		if isComments[index] {
+			extra = bytes.Index(left, endMatches[index])
+		} else {
+			// for quoted string, the end quote may be escaped, for example, "a\"b".
+			extra = indexUnescaped(left, endMatches[index])
+		}
+		if extra == -1 {
 			if atEOF {
 				if requiredMatches[index] {
 					return 0, nil, commentNotMatch
@@ -140,6 +146,28 @@ func (v *commentReader) Read(p []byte) (n int, err error) {
 	}
 
 	return
+}
+
+// get the index of flag in data, ignore the one escaped by backslash.
+func indexUnescaped(data []byte, flag []byte) int {
+	for from := 0; from <= len(data); {
+		position := bytes.Index(data[from:], flag)
+		if position < 0 {
+			return -1
+		}
+		position += from
+
+		// the flag is escaped when there is odd number of backslashes before it.
+		var nbBackslashes int
+		for i := position - 1; i >= 0 && data[i] == '\\'; i-- {
+			nbBackslashes++
+		}
+		if nbBackslashes%2 == 0 {
+			return position
+		}
+		from = position + 1
+	}
+	return -1
 }
 
 // get the first match in flags.
